@@ -23,6 +23,7 @@ ID = 'X02'
 EXTRA = True
 LEVEL = 'model_checking'
 TRACE = 'trace/Trace_DrawerCli'
+PROCESS_EVERY = 3         # every third case runs dump.py as a real process (seams.PROC_VARIANTS)
 RULE = ('case = one command line of the drawer-dump formatter (TLC-enumerated: drawer type x header file x string '
         'file x dump file x with / without trace buffers) run through the real main(); non-trivial = a file is given '
         'or missing, or the type is refused; distinct = by command line and seed')
@@ -135,18 +136,25 @@ def _one(it, root):
         argv = argv[1:] + argv[:1]            # the positional argument may come last
     old = (sys.argv, sys.stdout, sys.stderr)
     out, err = io.StringIO(), io.StringIO()
-    sys.argv, sys.stdout, sys.stderr = ['dump.py'] + argv, out, err
     status, uncaught = None, False
-    try:
+    if seams._proc_variant:
+        # the real dump.py as a real process in one of the ordinary environments (seams.PROC_VARIANTS)
+        res = seams.run_cli_proc(argv, seams._proc_variant, tool='dump')
+        out.write(res['out'])
+        err.write(res['err'])
+        status, uncaught = res['exit'], bool(res['uncaught'])
+    else:
+        sys.argv, sys.stdout, sys.stderr = ['dump.py'] + argv, out, err
         try:
-            dd.main()
-            status = 0
-        except SystemExit as e:
-            status = 0 if e.code is None else (e.code if isinstance(e.code, int) else 1)
-        except BaseException:
-            uncaught = True
-    finally:
-        sys.argv, sys.stdout, sys.stderr = old
+            try:
+                dd.main()
+                status = 0
+            except SystemExit as e:
+                status = 0 if e.code is None else (e.code if isinstance(e.code, int) else 1)
+            except BaseException:
+                uncaught = True
+        finally:
+            sys.argv, sys.stdout, sys.stderr = old
     expect = None
     try:
         if l['dump'] == 'data' and hdr_used and str_used:
